@@ -28,6 +28,36 @@ impl Prop for C17 {
     }
     fn gen(&self, seed: u64, _tier: Tier) -> Case {
         let mut r = Rng::new(seed);
+        if r.chance(50) {
+            // 'two-dances' population: two tap-dance keys (eager or lazy each) tapped one after the
+            // other, the second one while the first one's count is still open: pressing another key
+            // ends the first count, and the second key counts its own taps from one
+            let t = 100u64;
+            let forms: Vec<&str> = (0..2).map(|_| if r.chance(650) { "tap-dance-eager" } else { "tap-dance" }).collect();
+            let mut case = Case { prop: "C17".into(), seed, ..Default::default() };
+            case.cfg = format!("(defsrc a d b)\n(deflayer l0 ({} {t} (x y z)) ({} {t} (p q r)) 1)\n", forms[0], forms[1]);
+            let (a, d) = (oscode_of("a"), oscode_of("d"));
+            let (n1, n2) = (r.range(1, 3), r.range(1, 3));
+            let mut ops = vec![Op::Gap(2)];
+            for (k, n) in [(a, n1), (d, n2)] {
+                for _ in 0..n {
+                    ops.push(Op::Press(k));
+                    ops.push(Op::Gap(r.range(3, 10) as u32));
+                    ops.push(Op::Release(k));
+                    ops.push(Op::Gap(r.range(3, 12) as u32));
+                }
+            }
+            ops.push(Op::Gap(300));
+            case.ops = ops;
+            case.set("pop", "two-dances");
+            case.set("forms", forms.join(","));
+            case.set("n1", n1);
+            case.set("n2", n2);
+            case.set("min_ops", 0);
+            case.set("min_cfg", 0);
+            case.set("min_gaps", 0);
+            return case;
+        }
         let eager = r.chance(450);
         let len = r.range(1, 4) as usize;
         let t = *r.pick(&[2u64, 5, 20, 200]);
@@ -138,6 +168,37 @@ impl Prop for C17 {
         st.run_ops(&case.ops);
         st.gap(300);
         st.finish();
+        if case.param("pop") == Some("two-dances") {
+            let outs = st.trace.outs.clone();
+            let mut o = RunOut::pass();
+            o.sim_ms = st.trace.sim_ms;
+            o.count("pop.two-dances", 1);
+            o.sig = fnv(fnv(0, case.cfg.as_bytes()), ops_short(&case.ops).as_bytes());
+            o.nontrivial = !outs.is_empty();
+            if !st.down_set().is_empty() {
+                o.set_fail("C17:stuck-at-end", format!("still down: {}", outs_short(&outs)), vec![]);
+                return o;
+            }
+            let forms: Vec<&str> = case.param("forms").unwrap_or("tap-dance-eager,tap-dance-eager").split(',').collect();
+            let mut want: Vec<&str> = vec![];
+            for (i, (marks, n)) in [(["X", "Y", "Z"], case.param_u64("n1").unwrap_or(1)), (["P", "Q", "R"], case.param_u64("n2").unwrap_or(1))].iter().enumerate() {
+                if forms[i] == "tap-dance-eager" {
+                    // every tap performs its own action
+                    want.extend(marks[..*n as usize].iter());
+                } else {
+                    // the N-th action once
+                    want.push(marks[*n as usize - 1]);
+                }
+            }
+            let got: Vec<&str> = outs.iter().filter(|e| e.kind == OutKind::Press).map(|e| e.key.as_str()).collect();
+            if got != want {
+                o.set_fail("C17:wrong-action-for-tap-count", format!("{} tapped {} times, then {} tapped {} times: expected {want:?}, got {got:?}: {}", forms[0], case.param("n1").unwrap_or("?"), forms[1], case.param("n2").unwrap_or("?"), outs_short(&outs)), vec![]);
+            }
+            if want_sample {
+                o.sample = Some(sample_json(case, &outs, json!({"pop": "two-dances"})));
+            }
+            return o;
+        }
         let mut outs = st.trace.outs.clone();
         let first_kind = case.param("first_kind").unwrap_or("key").to_string();
         if first_kind == "mouse" {
